@@ -34,6 +34,10 @@ def _run(ctx, replay):
         n = 90 if tier == "quick" else 1500
         hs = vlib.tlc_gen(ctx, "Gen_Push", n, 12, seed * 15485863 + 1)
         scen = [{"id": "push-%d-%d" % (seed, i), "scripts": h} for i, h in enumerate(hs)]
+        # the lower clamp of the adaptive window (Push.tla: w > Dec ? w - Dec : 1) matters exactly at
+        # w = k * Dec: k fast successes alone put the window at 1 + k, then one message fails repeatedly
+        for k in ([8, 9, 10, 19] if tier == "quick" else list(range(0, 31)) + [39, 49]):
+            scen.append({"id": "window-%d-%d" % (seed, k), "scripts": [[]] * k + [["fail5", "fail4", "fail5"]], "phases": ([k] if k else []) + [1]})
     sp = os.path.join(ctx.scratch, "scen.ndjson")
     vlib.write_scenarios(sp, scen)
     tp = os.path.join(ctx.scratch, "trace.ndjson")
